@@ -31,6 +31,7 @@ def plan(tier, seed):
     try:
         from . import pageloop
         js += pageloop.jobs("C03", tier, seed)
+        js += pageloop.page_jobs("C03", tier)
     except ImportError:
         pass
     extra = dict(
